@@ -80,14 +80,15 @@ PROPS = {
         explanation="C10.map_refines_spec: for every history the I-model never dereferences nil and all outputs equal the Spec's; C10.inv; release_legacy_dangles is the kernel-checked witness of D1",
     ),
     "C11": dict(
-        lean=["GolibsVerif.Props.C11"],
+        lean=["GolibsVerif.Props.C11", "GolibsVerif.Props.C11Lru"],
         seq=[dict(comp="omap", decisive=lambda d: d["op"].startswith("mon C11"),
                   ignore=lambda d: d["op"].startswith("mon C10")),
-             dict(comp="lru", decisive=lambda d: d["op"].startswith("mon C11"))],
-        rule="same histories as C10; after EVERY op the Go-side monitor walks the real list from the head and checks linked nodes = Len+1+removed-but-pinned, pinned <= open iterators, and = Len+1 when no iterator is open; non-trivial as in C10",
+             dict(comp="lru", decisive=lambda d: d["op"].startswith("mon C11")),
+             dict(comp="lruchain", driver="lruover", decisive=lambda d: d["op"].startswith("mon C11"))],
+        rule="same histories as C10; after EVERY op the Go-side monitor walks the real list from the head and checks linked nodes = Len+1+removed-but-pinned, pinned <= open iterators, and = Len+1 when no iterator is open; non-trivial as in C10. LRU half (component lruchain): histories of GetOrCreate (also failing) / Remove / Clear on a real ECache — exhaustive to depth 4 (quick) / 6 (thorough) for capacities 1..2 over 3 keys, random histories of 20..400 ops for capacities 1..16 — with the node chain of the cache's internal map compared after every op with LruOver.lstep, plus the monitor C11-lru-bounded; non-trivial there = a Clear of a non-empty cache and an eviction in one history",
         assumptions=["GC reachability of pooled nodes and wall-clock cost are runtime notions; the model bounds linked nodes and traversal steps"],
         trusted=["modelled, not verified: as C10"],
-        explanation="C11.chain_bound / closed_means_clean / next_fuel_suffices for every history",
+        explanation="C11.chain_bound / closed_means_clean / next_fuel_suffices for every map history; C11Lru.lru_bounded / no_iterator_left_open / size_le_cap / never_panics / clear_empties for every LRU history (the cache as programs over the map's node-chain model; trace_faithful reduces them to map histories), legacy_clear_leaks keeps D2 machine-checked",
     ),
     "C08": dict(
         lean=["GolibsVerif.Props.C08"],
@@ -236,7 +237,7 @@ MANIFEST_TEXT = {
     "C06": _t("Lean proof on the contract that a store with an expired key is indistinguishable from the store with the key erased for every continuation, plus the listed per-operation outcomes; inherited by both I-models through the C03 refinements; tie as C03 with every operation kind forced to be the first after an expiry", "Lean 4 proof (expired ≡ erased on the Spec, lifted by refinement) + model/code correspondence"),
     "C08": _t("Lean proof that the ECache I-model's results and callback invocations equal those of a reference LRU (unordered residents + last-use stamps) for every call sequence, capacity, key mapping and create/expiry oracle; tied to container/lru by a differential run that also compares every create/delete callback", "Lean 4 refinement proof (I-model ⊑ reference LRU) + model/code correspondence"),
     "C10": _t("Lean proof that the linked-list I-model of iterable.Map never dereferences nil and returns the Spec's outputs for every history with any number of open iterators; tied to map.go by a differential run that also compares the linked nodes (state, refCnt, key) after every op", "Lean 4 refinement proof (I-model ⊑ log/stamp Spec) + model/code correspondence"),
-    "C11": _t("Lean proof that after any history the linked nodes are exactly live entries + sentinel + removed entries pinned by open iterators (≤ #iterators), nothing retained when all are closed; Go-side monitor walks the real list after every op, also inside lru.ECache over long Clear/Remove/GetOrCreate histories. The LRU bound is proved at map level and checked by the monitor (composition theorem ECache-over-M not yet mechanised)", "Lean 4 invariant proof + model/code correspondence with real-object monitor"),
+    "C11": _t("Lean proof that after any map history the linked nodes are exactly live entries + sentinel + removed entries pinned by open iterators (≤ #iterators), nothing retained when all are closed; composition theorem C11Lru.lru_bounded: the LRU cache expressed as programs over the map's node-chain model (the map calls ecache.go makes, in its order, incl. Clear's iterator and First's temporary one) never panics, leaves no iterator open, holds ≤ cap entries and links exactly entries+1 ≤ cap+1 nodes after EVERY history of GetOrCreate/Remove/Clear; tied to the code by differential runs that compare the real node chain (of the map and of the cache's internal map) with the models after every op, plus Go-side monitors walking the real list", "Lean 4 invariant + composition proofs + model/code correspondence with real-object monitors"),
     "C12": _t("Lean proof of index integrity + heap order + cancel-removes-exactly + never-early + at-most-once for every sequence of dispatcher critical sections over a transcription of container/heap; tied to timeout.go by driving the package's own add/cancel/heap.Pop on a private dispatcher and comparing the heap array and every future's idx after every op", "Lean 4 invariant proofs over transcribed container/heap + model/code correspondence"),
     "C14": _t("Lean proof that the ring-buffer I-model refines a bounded FIFO queue for every capacity and call sequence and keeps consumed slots zero; tied to ringbuffer.go by a differential run incl. the backing array and a Go-side zero-slot monitor", "Lean 4 refinement proof (I-model ⊑ bounded queue) + model/code correspondence"),
     "C15": _t("Lean proof of round trip, exact consumption, size = written (against the size function REGENERATED from the Go source on every run), short-buffer ⇔ error, writer = marshal and concatenation decoding for all values; tied by regeneration + differential run with Go-side round-trip/size/aliasing monitors", "Lean 4 proofs over a regenerated definition + model/code correspondence"),
